@@ -8,9 +8,7 @@ import (
 	"encoding/json"
 	"errors"
 	"fmt"
-	"math/rand/v2"
 	"net"
-	"runtime"
 	"sort"
 	"strings"
 	"sync"
@@ -18,231 +16,11 @@ import (
 	"time"
 
 	"github.com/redis/rueidis/internal/cmds"
-	"github.com/redis/rueidis/internal/util"
 
 	"verifsim/fakeredis"
 	"verifsim/resp"
 	"verifsim/sched"
-	"verifsim/simnet"
 )
-
-var curSim atomic.Pointer[sched.Sim]
-
-// muxwireName resolves a *muxwire to "<addr>#<index>" for canonical yield identities.
-var muxwireName atomic.Pointer[func(*muxwire) string]
-
-func muxOf(cl Client) []*mux {
-	switch c := cl.(type) {
-	case *singleClient:
-		if m, ok := c.conn.(*mux); ok {
-			return []*mux{m}
-		}
-	}
-	return nil
-}
-
-// coarse yield sites parked under Engine A
-var coarseSites = map[string]bool{
-	"pipe.Do": true, "pipe.DoMulti": true, "pipe.DoCache": true, "pipe.DoMultiCache": true,
-	"mux.pipe": true,
-	// herds: goroutines woken together when a queue slot becomes free (pool herds are serialised by the pool locker)
-	"fb.put.send": true, "ring.put.woken": true,
-}
-
-// coarseSitesExtra lets a scenario park additional sites (e.g. the pool's check-then-wait window).
-var coarseSitesExtra atomic.Pointer[map[string]bool]
-
-// fineSites is enabled by Engine B scenarios.
-var fineSites atomic.Bool
-
-// randState drives the util random seam: value = hash(seed, counter)
-var randState struct {
-	seed uint64
-	ctr  atomic.Uint64
-	on   atomic.Bool
-}
-
-func installHooks() {
-	VerifHooks.Yield = func(ctx context.Context, site string, obj any, cmd []string) {
-		s := curSim.Load()
-		if s == nil {
-			return
-		}
-		if site == "pipe.cleanup.spin" && s.IsDown() {
-			// the run is over; a clean-up loop that still has registered callers (hung calls) would spin forever and
-			// keep the bubble alive: block it for good, the bubble then ends with "blocked goroutines remain"
-			select {}
-		}
-		if site == "pipe.cleanup.spin" && !fineSites.Load() {
-			// The clean-up loop of a dead pipe spins with Gosched while callers are still registered. A spinning
-			// goroutine is never durably blocked and would freeze the fake clock, so under the simulator it polls
-			// once per fake millisecond instead.
-			time.Sleep(time.Millisecond)
-			return
-		}
-		if !coarseSites[site] {
-			extra := coarseSitesExtra.Load()
-			if !fineSites.Load() && (extra == nil || !(*extra)[site]) {
-				return
-			}
-		} else if (site == "fb.put.send" || site == "ring.put.woken") && len(cmd) == 1 && cmd[0] == "PING" && !fineSites.Load() {
-			return // rueidis' own wake-up PINGs (Close, clean-up): not part of any herd the workload creates
-		}
-		s.Park(yieldIdentity(ctx, site, obj, cmd))
-	}
-	// Ring slots and pools get channel-based lockers: a goroutine blocked on them is
-	// durably blocked for synctest, which a goroutine blocked on sync.Mutex is not.
-	// (The ring reader keeps a slot locked while it reads the remaining replies of a
-	// batch from the network; the pool keeps its lock while closing wires.)
-	VerifHooks.NewLocker = func() sync.Locker {
-		s := curSim.Load()
-		if s == nil {
-			return &sync.Mutex{}
-		}
-		return s.NewLocker(false)
-	}
-	// Pool conditions are broadcast to (cancellation, Close): all waiters wake and race for the lock.
-	// Every acquisition of a pool lock is therefore granted by the scheduler.
-	VerifHooks.NewPoolLocker = func() sync.Locker {
-		s := curSim.Load()
-		if s == nil {
-			return &sync.Mutex{}
-		}
-		return s.NewLocker(true)
-	}
-	util.VerifRand = func(n int) (int, bool) {
-		if !randState.on.Load() || n <= 0 {
-			return 0, false
-		}
-		return int(mix(randState.seed, randState.ctr.Add(1)) % uint64(n)), true
-	}
-	util.VerifShuffle = func(n int, swap func(i, j int)) bool {
-		if !randState.on.Load() {
-			return false
-		}
-		r := rand.New(rand.NewPCG(randState.seed, randState.ctr.Add(1)))
-		r.Shuffle(n, swap)
-		return true
-	}
-	util.VerifRandomBytes = func() []byte {
-		if !randState.on.Load() {
-			return nil
-		}
-		b := make([]byte, 24)
-		c := randState.ctr.Add(1)
-		for i := 0; i < 3; i++ {
-			v := mix(randState.seed+uint64(i), c)
-			for j := 0; j < 8; j++ {
-				b[i*8+j] = byte(v >> (8 * j))
-			}
-		}
-		return b
-	}
-}
-
-// goroutine identities for lock waits: task goroutines register themselves; rueidis' own goroutines
-// are recognised by their role on the stack.
-var goNames sync.Map // goid -> name
-
-func curGoid() uint64 {
-	var buf [64]byte
-	n := runtime.Stack(buf[:], false)
-	// "goroutine 123 ["
-	var id uint64
-	for _, c := range buf[10:n] {
-		if c < '0' || c > '9' {
-			break
-		}
-		id = id*10 + uint64(c-'0')
-	}
-	return id
-}
-
-func nameGoroutine(name string) { goNames.Store(curGoid(), name) }
-
-func identifyGoroutine() string {
-	if v, ok := goNames.Load(curGoid()); ok {
-		return v.(string)
-	}
-	buf := make([]byte, 4096)
-	buf = buf[:runtime.Stack(buf, false)]
-	st := string(buf)
-	switch {
-	case strings.Contains(st, "_backgroundWrite"):
-		return "writer"
-	case strings.Contains(st, "_backgroundRead"):
-		return "reader"
-	case strings.Contains(st, "removeIdleConns"):
-		return "poolcleanup"
-	case strings.Contains(st, "(*pipe)._background"):
-		return "bgcleanup"
-	case strings.Contains(st, "(*pipe).Close"):
-		return "closer"
-	}
-	return "int"
-}
-
-type chanLocker chan struct{}
-
-func (l chanLocker) Lock()   { l <- struct{}{} }
-func (l chanLocker) Unlock() { <-l }
-
-func mix(a, b uint64) uint64 {
-	x := a*0x9e3779b97f4a7c15 ^ b*0xbf58476d1ce4e5b9
-	x ^= x >> 30
-	x *= 0xbf58476d1ce4e5b9
-	x ^= x >> 27
-	x *= 0x94d049bb133111eb
-	x ^= x >> 31
-	return x
-}
-
-func connIDOf(p *pipe) string {
-	if p == nil || p.conn == nil {
-		return "c?"
-	}
-	if c, ok := p.conn.(*simnet.Conn); ok {
-		return fmt.Sprintf("c%d", c.ID)
-	}
-	return "c?"
-}
-
-func yieldIdentity(ctx context.Context, site string, obj any, cmd []string) string {
-	who := sched.TaskID(ctx)
-	if who == "" {
-		who = "bg"
-	}
-	where := ""
-	switch o := obj.(type) {
-	case *pipe:
-		where = connIDOf(o)
-	case *mux:
-		where = o.dst
-	case *muxwire:
-		where = "wire?"
-		if f := muxwireName.Load(); f != nil {
-			where = (*f)(o)
-		}
-	case *pool:
-		where = "pool"
-	case *node:
-		where = "slot"
-	case *flowBuffer:
-		where = "fb"
-	}
-	c := ""
-	if len(cmd) > 0 {
-		n := len(cmd)
-		if n > 3 {
-			n = 3
-		}
-		c = strings.Join(cmd[:n], " ")
-		if len(c) > 48 {
-			c = c[:48]
-		}
-	}
-	return who + "|" + site + "|" + where + "|" + c
-}
 
 // ---- plan types shared by the Engine A scenarios ----
 
@@ -532,20 +310,6 @@ func (c *mapCache) Flush() {
 	c.mu.Lock()
 	defer c.mu.Unlock()
 	c.m = map[string]RedisMessage{}
-}
-
-// setMaxP pins the parallelism rueidis derives from GOMAXPROCS at construction time, so that it is
-// part of the plan and not of the process environment.
-func setMaxP(cl Client, n int) {
-	if n <= 0 {
-		return
-	}
-	switch c := cl.(type) {
-	case *singleClient:
-		if m, ok := c.conn.(*mux); ok {
-			m.maxp = n
-		}
-	}
 }
 
 // background runs fn in a goroutine tagged with name and drives the simulation until it returns.
